@@ -91,6 +91,14 @@ def _emit(outs, s_true, s_false, positive):
 
 
 def _membership(w, e, s, l, r, positive, outs):
+    if isinstance(r, tuple) and ((len(r) == 5 and r[0] == "comp" and r[1] == "gen") or (len(r) == 3 and r[0] == "gen")):
+        # `x in <one-shot iterator>` consumes the iterator up to the first match: the answer
+        # depends on what was consumed before - nothing is learnt about x
+        s1 = s.copy()
+        s1.ev("iterator-consumed", w.site(e), r)
+        outs.append((s1, "val", C(True)))
+        outs.append((s1.copy(), "val", C(False)))
+        return
     rlit = r if is_lit(r) else w.const_literal(r, s)
     if rlit is not None and not is_lit(rlit):
         norm = _as_set_literal(w, rlit, s)  # frozenset({...}) bound to a module constant
